@@ -98,7 +98,8 @@ def initVisible : Kind → Bool
   | .namelist => C05.visibleAtInit.contains "FortranNamelist"
   | .common => C05.visibleAtInit.contains "FortranCommon"
   | .blockdata => C05.visibleAtInit.contains "FortranBlockData"
-  | .module | .submodule => C05.visibleAtInit.contains "FortranModule"
+  | .module => C05.visibleAtInit.contains "FortranModule"
+  | .submodule => C05.visibleAtInit.contains "FortranSubmodule"
   | _ => false
 
 /-- dummy arguments and the declared result of a function: kept in `args` / `retvar`, which no `prune()`
@@ -169,6 +170,67 @@ def pruneKids (cfg : Cfg) (cl : PClass) (off : Bool) (d : List Word) : Ents → 
     else if visibleOnlyIn cl l then .cons e.setVisible (pruneKids cfg cl off d rest)
     else .cons e (pruneKids cfg cl off d rest)
 end
+
+/-! ### reading the probe rows (round 5)
+
+The tables of `Generated/C05.lean` are no longer read off the spelling of the source: the translator runs the real
+`prune()`, `_set_display`, `_should_display` / `filter_display`, `__str__` on real objects and writes down what they
+did.  The functions below say what the *model* does on the same inputs; `Props/C05.lean` proves row by row that the
+two agree (by evaluation), so a source change that alters the behaviour breaks an obligation and one that does not
+leaves every table as it was. -/
+
+/-- the entity kind whose `prune()` an object of this class runs -/
+def classKind : String → Option Kind
+  | "FortranModule" => some .module
+  | "FortranSubmodule" => some .submodule
+  | "FortranProgram" => some .program
+  | "FortranSubroutine" => some .subroutine
+  | "FortranFunction" => some .function
+  | "FortranModuleProcedureImplementation" => some .modproc
+  | "FortranType" => some .type
+  | "FortranBlockData" => some .blockdata
+  | _ => none
+
+/-- what the model's `pruneKids` does to the list `l` of an entity of kind `k` whose `proc_internals` is `pint`,
+    against one probe row: emptied / filtered / kept member only marked visible / kept member marked and pruned -/
+def pruneRowOk (r : String × Bool × List String × List String × List String × List String) : Bool :=
+  match classKind r.1 with
+  | none => false
+  | some k =>
+    let off := isProc k && !r.2.1
+    let cl := classOf k
+    C05.probeLists.all fun l =>
+      (r.2.2.1.contains l == (off && emptiedIn cl l))
+      && (r.2.2.2.1.contains l == (!off && filteredIn cl l))
+      && (r.2.2.2.2.1.contains l == (!off && !recurseIn cl l && visibleOnlyIn cl l))
+      && (r.2.2.2.2.2.contains l == (!off && recurseIn cl l))
+
+/-- word codes of the probe tables -/
+def wordOfCode : Nat → Word
+  | 0 => .pub | 1 => .prot | 2 => .priv | 3 => .none | _ => .other
+
+/-- `_set_display` leaves the inherited list object in place (no own metadata, or none that names a permission) -/
+def setDisplayInherits (isFile : Bool) (md : List Word) : Bool :=
+  let tmp := if isFile then md.filter (fun w => w != .none) else md
+  tmp.isEmpty || (!tmp.contains .none && !tmp.contains .pub && !tmp.contains .priv && !tmp.contains .prot)
+
+/-- one `_set_display` probe row against `setDisplay` / `setDisplayInherits` -/
+def setDisplayRowOk (r : Bool × List Nat × List Nat × List Nat × Bool) : Bool :=
+  let par := r.2.1.map wordOfCode
+  let md := r.2.2.1.map wordOfCode
+  (setDisplay r.1 par md == r.2.2.2.1.map wordOfCode) && (r.2.2.2.2 == setDisplayInherits r.1 md)
+
+/-- one `_should_display` / `filter_display` probe row against `shouldDisplay` -/
+def shouldDisplayRowOk (r : Bool × Bool × Nat × List Nat × Bool) : Bool :=
+  let cfg : Cfg := { display := [], procInternals := true, hideUndoc := r.1, fileInherits := true }
+  let i : Info := { (default : Info) with perm := wordOfCode r.2.2.1, doc := r.2.1 }
+  shouldDisplay cfg (r.2.2.2.1.map wordOfCode) i == r.2.2.2.2
+
+/-- one `str(entity)` probe row: a link iff the entity has a URL and `visible` is not false (`visibleIds` is what
+    the model makes of it); otherwise the plain name -/
+def strRowOk (r : Bool × String × Bool × String) : Bool :=
+  let link := r.1 && r.2.1 != "false"
+  r.2.2.2 == (if link then (if r.2.2.1 then "link" else "link-unnamed") else (if r.2.2.1 then "name" else "empty"))
 
 /-- the units of a file: members of `ranklist` (modules, top-level procedures, programs,
     block data), all `visible`, each pruned with its own display -/
@@ -297,6 +359,13 @@ def Ents.append : Ents → Ents → Ents
 def inheritable (i : Info) : Bool :=
   (i.kind == .variable && i.perm == .pub) || (i.kind == .boundproc && i.perm != .priv)
 
+/-- one probe row (member kind, permission code, inherited) against `inheritable` -/
+def inheritRowOk (r : String × Nat × Bool) : Bool :=
+  let k : Option Kind := if r.1 == "variable" then some .variable else if r.1 == "boundproc" then some .boundproc else none
+  match k with
+  | some k => inheritable { (default : Info) with kind := k, perm := wordOfCode r.2.1 } == r.2.2
+  | none => false
+
 def Ents.inheritable : Ents → Ents
   | .nil => .nil
   | .cons e rest => if Display.inheritable e.info then .cons e rest.inheritable else rest.inheritable
@@ -392,7 +461,7 @@ table `visibleInCorrelate`) marks *every* type of a block data unit before `prun
 
 /-- `correlate` of a `pk` marks its members of kind `ck` `visible` before any `prune()` -/
 def visibleBeforePrune (pk ck : Kind) : Bool :=
-  pk == .blockdata && ck == .type && C05.visibleInCorrelate.contains ("FortranBlockData", "typeorder")
+  pk == .blockdata && ck == .type && C05.visibleInCorrelate.contains ("FortranBlockData", "FortranType")
 
 /-- kind of the entity that declares `n` in the project as parsed -/
 def parentKindIn (n : Nat) (orig : List Ent) : Option Kind :=
